@@ -1,14 +1,22 @@
 (* Proofs/TwoElecP.v — the recursions of Model/TwoElec.v (_two_elec_int.py) compute the
    bivariate Gaussian moments of Gauss/Wick2D.v read through the functional Phi.
 
-   Abstract level (functions of the indices, all angular momenta, any field):
-     Vf2 / vrr2_entry_is_Phi / Pw_eval / Pw_is_moment : vertical recursion with weight w
-     Vf2_via_SPoly      : it is the one-electron recursion of SPoly for the rescaled sequence w^m beta_m
-     ETf / etransfer_table_is_moment / eri_axis_correct : electron transfer
-     Hf / hrr_binomial  : horizontal recursion
+   Abstract level (functions of the indices; all angular momenta; any field):
+     Vf2 / vrr2_entry_is_Phi / Pw_eval / Pw_is_moment   vertical recursion with weight w = rho/p
+     Vf2_via_SPoly        it is the one-electron recursion of SPoly for the rescaled sequence w^m beta_m
+     Vf2_local, ETf_local, Hf_local                      what each recursion reads (validity regions)
+     ETf / ETp / etransfer_table_is_moment / eri_axis_correct      electron transfer, one axis
+     pmul / Phi_compose / V3 / E3 / R3 / eri_3d_correct            three axes
+     Hf / hrr_binomial / hh / hh_Sb / hh_Sd / hh_binomial          horizontal recursion
    List level (the tables the model builds), with the validity regions:
-     vpass2_entry : m + a <= L        tpass_entry : a + c <= L        hiter_entry : a + b <= L
-   all_s_closed_form : L = 0 gives pref * boys 0 T. *)
+     vpass2_entry (m + a <= L), vrr2_cube_entry (|a| <= L), tpass_entry (idx + c <= L),
+     tpass3_entry_region, eri_prim_entry, eri_prim_correct (|a| + |c| <= L),
+     hiter_entry (idx + b <= L), hrr3_entry, eri_channel_entry, eri_block_entry
+     all_s_closed_form : L = 0 gives pref * boys 0 T
+   Whole block:
+     two_elec_correct : every entry of eri_block = norms * Sum_prims weights * Phi_0 (R4) and
+                        peval R4 s = product over the axes of the four-index moments M4.
+   Examples at Qc at the end (hypotheses satisfiable; one primitive entry computed on both sides). *)
 From Coq Require Import List Arith Lia Field.
 From GB Require Import Base.Field Base.FNum Base.Tables Gauss.Moment1D Gauss.SPoly Gauss.Wick2D
   Model.Shell Model.MomentInt Model.OneElec Model.TwoElec.
